@@ -31,6 +31,8 @@ def gen(rng, tier):
         else:
             name = rng.choice(sorted(G.TYPED))
             yield G.case_ser("--", big, pos, "typed:" + name, G.rand_val(rng, G.TYPED[name], 3))
+    for w in G.wide_values():
+        yield G.case_ser("--", rng.random() < 0.5, rng.choice([0, 3]), "dyn", w)
     # towers of containers, every word up to length 3 (4 in thorough) at a few offsets
     import itertools
     for k in range(1, 4 if tier == "quick" else 5):
